@@ -1,5 +1,6 @@
 import Mercure.Lemmas.Retention
 import Mercure.Lemmas.Hub
+import Mercure.Lemmas.SysStream
 import Mercure.Model.Sys
 import Mercure.Generated.Facts
 /-
@@ -7,13 +8,13 @@ import Mercure.Generated.Facts
 
   Two layers:
   * operation level (Mercure.Hub model: nothing is published *during* a registration): what is
-    negotiated and replayed, for every history incl. retention and restarts — theorems below;
-  * region level (Mercure.Sys: publishes placed anywhere relative to registration / history scan /
-    go-live): the stream is a gap-free prefix of the ideal sequence under every schedule — the
-    theorems `bolt_stream_prefix_of_ideal` / `bolt_stream_complete` are added to this file when
-    their proofs are complete (see DESIGN.md §15); until then that layer is covered by the
-    controlled-schedule correspondence and its oracles, and by the witness theorems below for the
-    code as found.
+    negotiated and replayed, for every history incl. retention and restarts;
+  * region level (Mercure.Sys): publishes placed anywhere relative to registration / history scan /
+    go-live, any number of threads, every schedule: the stream is a gap-free prefix of the ideal
+    sequence, and the whole of it at quiescence (`junction_*` below). `Sys.ideal b accepted k` =
+    (the stored updates owed after the requested id — or all for 'earliest' — among the first k
+    accepted, then everything accepted after the subscriber was indexed) filtered to what it
+    matches: what it would have received had it stayed connected.
 -/
 namespace Mercure.C07
 open Mercure
@@ -59,6 +60,25 @@ theorem C07_same_schedule_repaired :
     σ.allDone = true ∧ ((Sys.getSub σ 0).enq.map (·.id)) = [2] := by
   decide +kernel
 
+/-! ### region level: the replay/live junction under every schedule -/
+
+/-- **Nothing lost, duplicated or reordered at the junction**: under every schedule the sequence a
+    reconnecting subscriber has been sent is a gap-free prefix of its ideal sequence — also when
+    its buffer overflows or it is disconnected or the hub closes (then the stream simply ends)… -/
+theorem junction_gap_free_prefix (subs : List Sys.Sub) (ops : List Sys.Op) (wf : Sys.WellFormed subs ops) (sched : List Nat) :
+    ∀ b ∈ (Sys.reach Sys.Flags.repaired .bolt 0 subs ops sched).subs, ∀ k, b.joinedAt = some k →
+      b.enq <+: Sys.ideal b (Sys.reach Sys.Flags.repaired .bolt 0 subs ops sched).tr.accepted k :=
+  Sys.Stream.bolt_stream_prefix_of_ideal subs ops wf sched
+
+/-- …and exactly the ideal sequence once every operation has returned, if it is still connected. -/
+theorem junction_complete (subs : List Sys.Sub) (ops : List Sys.Op) (wf : Sys.WellFormed subs ops) (sched : List Nat)
+    (hq : (Sys.reach Sys.Flags.repaired .bolt 0 subs ops sched).allDone = true) :
+    ∀ s, s ∈ (Sys.reach Sys.Flags.repaired .bolt 0 subs ops sched).tr.index →
+      let b := Sys.getSub (Sys.reach Sys.Flags.repaired .bolt 0 subs ops sched) s
+      b.ready = true → b.disconnected = false → ∀ k, b.joinedAt = some k →
+      b.enq = Sys.ideal b (Sys.reach Sys.Flags.repaired .bolt 0 subs ops sched).tr.accepted k :=
+  Sys.Stream.bolt_stream_complete subs ops wf sched hq
+
 end Mercure.C07
 
 #print axioms Mercure.C07.replay_after_retained_id
@@ -67,3 +87,5 @@ end Mercure.C07
 #print axioms Mercure.C07.repo_flags
 #print axioms Mercure.C07.C07_counterexample_duplicate
 #print axioms Mercure.C07.C07_same_schedule_repaired
+#print axioms Mercure.C07.junction_gap_free_prefix
+#print axioms Mercure.C07.junction_complete
